@@ -127,7 +127,17 @@ def run(ck, facts, tier):
             ck.violation(R, "try_fold_inference_%s:value=Unbound(self.universe_index)" % kind, b.where(), "promotion must keep the variable unbound")
         if kind != "lifetime":
             # union with self.var => Err
-            un = cfg.bool_edges(trace_is_call("unioned"), True)
+            # accepted forms of the cycle test: `unify.unioned(var, self.var)` or `find(var) == find(self.var)` (both sides resolved)
+            def is_cycle_test(tr):
+                if tr.get("kind") == "call" and callee_matches(tr["call"], "unioned"):
+                    return True
+                if tr.get("kind") in ("bin", "call"):
+                    sides = [tr.get("a"), tr.get("b")] if tr.get("kind") == "bin" and tr.get("op") == "Eq" else []
+                    if tr.get("kind") == "call" and callee_matches(tr["call"], "PartialEq::eq"):
+                        sides = [cfg.trace(a) for a in tr["call"]["a"][:2]]
+                    return len(sides) == 2 and all(s and s.get("kind") == "call" and callee_matches(s["call"], "find") for s in sides)
+                return False
+            un = cfg.bool_edges(is_cycle_test, True)
             errs = [blk for blk, j, st in cfg.agg_sites("core::result::Result", "Err")]
             okc = bool(un) and any(e in cfg.reachable(un[0][1]) for e in errs) and \
                 all(s not in cfg.reachable(un[0][1]) for s in cfg.call_blocks(BIND))
